@@ -133,6 +133,41 @@ def body_objects(rep, case):
             raise Violation("C14/schedule-object-duration/after-dataclasses-replace", case, expected(s_, e2), other.duration)
 
 
+def body_listed(rep, case):
+    """Schedules as get-schedules replies list them: slot timestamps carry seconds and may lie on either side of an offset
+    change of the host zone, yet the duration reported is that of the HH:MM start and end the very same object reports."""
+    from .. import vclock
+    from ..ref import replies
+    from aioswitcher.api.messages import SwitcherGetSchedulesResponse
+    recs = [(i, True, 0x02 << (i % 7), 1, st_, en_, bytes(4)) for i, (st_, en_) in enumerate(case["stamps"])]
+    with vclock.frozen(case["zone"], 2024, 6, 15, 12, 0, 0):
+        resp = SwitcherGetSchedulesResponse(replies.schedules(recs))
+        listed = {sch.schedule_id: sch for sch in resp.schedules}
+    for i, (st_, en_) in enumerate(case["stamps"]):
+        sch = listed.get(str(i))
+        if sch is None:
+            continue            # what is listed at all is C10's business
+        whole = (en_ - st_) % 60 == 0
+        rep.tick("listed-schedules", key=(case["zone"], st_, en_), nontrivial=not whole, sample={"zone": case["zone"], "start": st_, "end": en_},
+                 labels=("stamps-a-whole-number-of-minutes-apart" if whole else "stamps-with-odd-seconds",))
+        try:
+            sm, em = [int(t[:2]) * 60 + int(t[3:]) for t in (sch.start_time, sch.end_time)]
+        except Exception:
+            continue            # malformed HH:MM texts are C10's business
+        if sch.duration != expected(sm, em):
+            raise Violation("C14/listed-schedule-duration" + ("" if whole else "/stamps-with-odd-seconds"),
+                            {"zone": case["zone"], "stamps": [[st_, en_]]},
+                            {"start_time": sch.start_time, "end_time": sch.end_time, "duration": expected(sm, em)}, sch.duration)
+
+
+def strat_listed():
+    from .. import vclock
+    start = st.one_of(st.integers(0, 2 ** 32 - 1), st.integers(1_600_000_000, 1_900_000_000))
+    pair = st.tuples(start, st.one_of(st.integers(0, 86_399), st.integers(0, 1439).map(lambda m: m * 60),
+                                      st.integers(0, 8 * 86_400))).map(lambda t: [t[0], (t[0] + t[1]) % 2 ** 32])
+    return st.builds(lambda z, pairs: {"zone": z, "stamps": pairs}, st.sampled_from(vclock.QUICK_ZONES), st.lists(pair, min_size=1, max_size=8))
+
+
 def strat_objects():
     pair = st.tuples(st.integers(0, 1439), st.integers(0, 1439))
     return st.builds(lambda slot, pairs: {"slot": slot, "pairs": [list(p) for p in pairs]}, st.integers(0, 7),
@@ -151,6 +186,7 @@ def subchecks(tier):
     subs = [Sub("rows", body_rows, cases=cases, shards=16, exhaustive=full),
             Sub("rows-other-host-zones", lambda rep, case: body_rows(rep, case, "rows-other-host-zones"), cases=zcases, shards=16)]
     subs.append(Sub("schedule-objects", body_objects, strategy=strat_objects, n=100_000 if full else 2500, shards=8 if full else 2))
+    subs.append(Sub("listed-schedules", body_listed, strategy=strat_listed, n=40_000 if full else 1500, shards=8 if full else 2))
     subs.append(Sub("text-forms", body_forms, cases=cases_forms, shards=2, exhaustive=False))
     subs.append(Sub("many-distinct", body_many_distinct, shards=2, exhaustive=False,
                     cases=lambda: ([{"n": 70_000, "again": 6000}] if not full else
